@@ -65,11 +65,11 @@ class SyntaxLines(Part):
     def strategy(self, tier):
         rng = st.one_of(st.none(), st.none(), st.tuples(st.integers(-2, 12), st.integers(1, 14)).map(lambda t: [t[0], max(1, t[0], t[1])]))
         return st.builds(
-            lambda code, lexer, ln, start, lr, hl, ww, cw, ig, theme, ts, narrow, rn: {"code": code, "lexer": lexer, "line_numbers": ln, "start_line": start, "line_range": lr if ln else None, "highlight": hl,
-                                                                                    "word_wrap": ww, "code_width": cw, "indent_guides": ig, "theme": theme, "tab_size": ts, "narrow": narrow, "renders": rn},
+            lambda code, lexer, ln, start, lr, hl, ww, cw, ig, theme, ts, narrow, rn, fp: {"code": code, "lexer": lexer, "line_numbers": ln, "start_line": start, "line_range": lr if ln else None, "highlight": hl,
+                                                                                    "word_wrap": ww, "code_width": cw, "indent_guides": ig, "theme": theme, "tab_size": ts, "narrow": narrow, "renders": rn, "from_path": fp},
             source(), st.sampled_from(LEXERS), st.sampled_from([True, True, False]), st.one_of(st.just(1), st.integers(1, 10000), st.sampled_from([9, 99, 999])), rng,
             st.lists(st.integers(1, 12), max_size=3), st.booleans(), st.one_of(st.none(), st.none(), st.integers(20, 60)), st.booleans(), st.sampled_from(THEMES), st.sampled_from([4, 4, 8, 2]),
-            st.one_of(st.none(), st.none(), st.integers(12, 30)), st.sampled_from([1, 1, 2, 3]),
+            st.one_of(st.none(), st.none(), st.integers(12, 30)), st.sampled_from([1, 1, 2, 3]), st.sampled_from([None, None, None, "json", "html", "py", "txt", "python"]),
         )
 
     def check(self, spec, ctx):
@@ -82,6 +82,19 @@ class SyntaxLines(Part):
         lr = spec["line_range"]
         numbers = spec["line_numbers"]
         W = spec["narrow"] if spec["narrow"] else 400
+        if spec.get("from_path"):
+            # history: a file of that kind was shown with Syntax.from_path earlier in the process
+            d0 = tempfile.mkdtemp(prefix="vp_c17p_")
+            try:
+                path0 = os.path.join(d0, "earlier." + spec["from_path"])
+                with open(path0, "w", encoding="utf-8") as fh:
+                    fh.write("\n\n{\"a\": 1}\n")
+                earlier = sut(Syntax.from_path, path0, line_numbers=True)
+                c0 = sut(Console, file=io.StringIO(), width=60, color_system=None, _environ={})
+                sut(c0.print, earlier)
+            finally:
+                shutil.rmtree(d0, ignore_errors=True)
+            ctx.cls("after-from_path")
         syn = sut(Syntax, code, spec["lexer"], theme=spec["theme"], line_numbers=numbers, start_line=start, line_range=tuple(lr) if lr else None,
                   highlight_lines=set(spec["highlight"]), word_wrap=spec["word_wrap"], code_width=spec["code_width"] if not spec["narrow"] else None, indent_guides=spec["indent_guides"], tab_size=ts)
         # the same Syntax object is rendered more than once (a Live refresh, two consoles): every render shows the same lines
@@ -199,9 +212,9 @@ class Tracebacks(Part):
     chunk = 60
 
     def strategy(self, tier):
-        return st.builds(lambda lead, filler, depth, pos, nl, tabs, wide, wrap, pb: {"lead": lead, "filler": filler, "depth": depth, "pos": pos, "final_newline": nl, "tabs": tabs, "wide": wide, "wrap": wrap, "pagebreaks": pb},
+        return st.builds(lambda lead, filler, depth, pos, nl, tabs, wide, wrap, pb, rec: {"lead": lead, "filler": filler, "depth": depth, "pos": pos, "final_newline": nl, "tabs": tabs, "wide": wide, "wrap": wrap, "pagebreaks": pb, "recursive": rec},
                          st.integers(0, 4), st.integers(0, 6), st.integers(1, 3), st.sampled_from(["first", "middle", "last"]), st.booleans(), st.booleans(), st.booleans(),
-                         st.sampled_from(["none", "none", "finally", "with"]), st.sampled_from([0, 0, 1, 4, 6]))
+                         st.sampled_from(["none", "none", "finally", "with"]), st.sampled_from([0, 0, 1, 4, 6]), st.sampled_from([0, 0, 1, 3]))
 
     def check(self, spec, ctx):
         from rich.console import Console
@@ -220,6 +233,8 @@ class Tracebacks(Part):
                 ctx.cls("leading-blank-lines")
             if spec.get("pagebreaks"):
                 ctx.cls("form-feeds-above")
+            if spec.get("recursive"):
+                ctx.cls("same-function-at-several-lines")
         finally:
             shutil.rmtree(d, ignore_errors=True)
             linecache.clearcache()
@@ -234,9 +249,13 @@ class Tracebacks(Part):
         body = []
         for dd in range(spec["depth"]):
             name = "f%d" % dd
-            body.append("def %s(v):" % name)
+            last = dd == spec["depth"] - 1
+            rec = spec.get("recursive", 0) if last else 0
+            body.append("def %s(v%s):" % (name, ", d=0" if rec else ""))
             fill = ["%sv = v + %d" % (ind, k) for k in range(spec["filler"])]
-            call = "%sreturn f%d(v)" % (ind, dd + 1) if dd < spec["depth"] - 1 else "%sraise ValueError(%r)" % (ind, msg)
+            call = "%sreturn f%d(v)" % (ind, dd + 1) if not last else "%sraise ValueError(%r)" % (ind, msg)
+            # the raising function calls itself first: several frames of one name in one file, at different lines
+            recursion = ["%sif d < %d:" % (ind, rec), "%s%sreturn %s(v, d + 1)" % (ind, ind, name)] if rec else []
             wrap = spec.get("wrap", "none")
             if wrap == "finally":
                 # the frame runs more code (the finally body) after the exception passed through it
@@ -245,6 +264,7 @@ class Tracebacks(Part):
                 call = ["%swith _Ctx():" % ind, ind + call, "%sv = 0" % ind]
             else:
                 call = [call]
+            call = recursion + call
             if spec["pos"] == "first":
                 body.extend(call + fill)
             elif spec["pos"] == "last":
